@@ -31,7 +31,7 @@ RULE = (
     "file -> (request, intact). Invariants after every step: a cached solve returns exactly the uncached result (array_equal, "
     "dtypes, grids); a request that was solved with the cache attached (and whose entry was not damaged or cleared since) is a hit with no put - also when the solve had to repair a damaged entry; no solve raises, whatever files are damaged. "
     "Enumerated part: for each request kind a stored entry is truncated at sampled (quick) or every (thorough) byte offset and "
-    "solved again. One real second process pre-populates a directory that the parent then reads. Non-trivial = history with a "
+    "solved again. One real second process pre-populates a directory that the parent then reads; four overlapped-store cases (another process or a forked child opens / uses the directory between the write and the rename of an entry); two killed-store cases (a real process dies with half of an entry written, or with all of it written and nothing else done: the next identical request is right, the one after it is a hit); two interface-level cases (run_bldfm_single with and without a cache object, weak and ordinary wind, default and two-level output). Non-trivial = history with a "
     "store followed by a different request, or a file fault followed by a solve; distinct = canonical JSON of the step list."
 )
 ASSUMPTIONS = [
@@ -405,6 +405,8 @@ def machine(tier, stats, last_fail):
 
 def enumerate_cases(tier):
     cases = [{"kind": "xproc"}] + [{"kind": "interleave", "other": o} for o in ("construct-only", "same-request", "another-request", "forked-same-instance")]
+    cases += [{"kind": "killed-store", "at": a} for a in ("mid-write", "before-rename")]
+    cases += [{"kind": "interface", "ws": ws, "wd": wd, "levels": lv} for ws, wd, lv in ((0.37, 203.0, None), (3.3, 75.0, [3, 1]))]
     # which request kinds get their stored entry cut: all footprint requests; offsets: sampled / all
     for i, (name, req) in enumerate(REQUESTS):
         if not req["footprint"]:
@@ -494,6 +496,122 @@ for i in [int(v) for v in sys.argv[4].split(",") if v]:
 sys.stdout.write("done\n"); sys.stdout.flush()
 env.hard_exit(0)
 """
+
+
+_KILLED = r"""
+import sys, os
+sys.path.insert(0, sys.argv[1]); sys.path.insert(0, sys.argv[2])
+from pbt import env
+env.setup(chdir=True); env.import_bldfm()
+import numpy
+from pbt.props import c15
+from bldfm.cache import GreensFunctionCache
+orig = numpy.savez
+def savez(file, *a, **k):
+    orig(file, *a, **k)
+    if sys.argv[5] == "mid-write":          # the process dies with half of the entry written ...
+        if hasattr(file, "flush"):
+            file.flush(); os.ftruncate(file.fileno(), max(1, file.tell() // 2))
+        else:
+            name = str(file) if str(file).endswith(".npz") else str(file) + ".npz"
+            os.truncate(name, max(1, os.path.getsize(name) // 2))
+    elif hasattr(file, "flush"):             # ... or with all of it written and nothing done afterwards
+        file.flush()
+    sys.stdout.write("killed\n"); sys.stdout.flush()
+    os._exit(17)
+numpy.savez = savez
+c15._solve(c15.REQUESTS[int(sys.argv[4])][1], cache=GreensFunctionCache(sys.argv[3]))
+sys.stdout.write("store-not-reached\n"); sys.stdout.flush()
+env.hard_exit(0)
+"""
+
+
+def _check_killed_store(case):
+    """An earlier process was killed while storing the entry of a request (half of it written, or all of it written and the
+    process gone before anything else happened).  Whatever it left in the directory, the next process that makes the same
+    request gets the right answer, and the request after that is served from the cache without solving again."""
+    out = Outcome()
+    out.label("killed-store", "at=" + case["at"])
+    i = NAMES.index("base")
+    d = tempfile.mkdtemp(prefix="c15-killed-", dir=str(env.scratch()))
+    try:
+        r = subprocess.run([sys.executable, "-c", _KILLED, str(env.SRC), str(env.VERIF), d, str(i), case["at"]],
+                           capture_output=True, text=True, env=dict(os.environ, PYTHONHASHSEED="13579"), timeout=600)
+        if "killed" not in r.stdout:
+            if "store-not-reached" in r.stdout:
+                out.label("store-not-reached")
+                return out
+            raise RuntimeError(f"C15 killed-store child failed: {r.stderr[-600:]}")
+        left = sorted(os.listdir(d))
+        out.detail = {"left_behind": left}
+        for rep in (1, 2, 3):
+            log = []
+            try:
+                got = _solve(REQUESTS[i][1], cache=_recording_cache(d, log))
+            except Exception as e:
+                out.bad(f"request {rep} after a process was killed while storing the same entry ({case['at']}; it left {left}) "
+                        f"raised {type(e).__name__}: {e}")
+                break
+            diff = _same(got, _uncached(i))
+            if diff:
+                out.bad(f"request {rep} after a process was killed while storing the same entry ({case['at']}; it left {left}) "
+                        f"differs from the uncached result: {diff}")
+            if rep >= 2 and (("hit",) not in log or any(e[0] == "put" for e in log)):
+                out.bad(f"request {rep} after a process was killed while storing the same entry ({case['at']}; it left {left}) "
+                        f"was solved again instead of being served from the cache (log {log})")
+                break
+        out.nontrivial = True
+    finally:
+        shutil.rmtree(d, ignore_errors=True)
+    return out
+
+
+def _check_interface(case):
+    """The cache attached where users attach it: run_bldfm_single(config, tower, cache=...) returns exactly what the same call
+    returns without a cache - on the miss that stores the entry and on the hit that reads it back."""
+    from bldfm import parse_config_dict, run_bldfm_single
+    from bldfm.cache import GreensFunctionCache
+
+    out = Outcome()
+    out.label("interface-level", "weak-wind" if case["ws"] < 1 else "ordinary-wind")
+    dom = {"nx": 12, "ny": 10, "xmax": 120.0, "ymax": 150.0, "nz": 6, "modes": [12, 10], "ref_lat": 48.0, "ref_lon": 11.0}
+    R = 6_371_000.0
+    if case["levels"]:
+        dom["output_levels"] = case["levels"]
+    cfg = parse_config_dict({
+        "domain": dom, "towers": [{"name": "T", "z_m": 3.0, "lat": 48.0 + float(np.degrees(45.0 / R)),
+                                     "lon": 11.0 + float(np.degrees(70.0 / (R * np.cos(np.radians(48.0)))))}],
+        "met": {"ustar": 0.31, "mol": -87.0, "wind_speed": case["ws"], "wind_dir": case["wd"]},
+        "solver": {"closure": "MOST", "footprint": True, "precision": "double"},
+    })
+    d = tempfile.mkdtemp(prefix="c15-iface-", dir=str(env.scratch()))
+    try:
+        ref = run_bldfm_single(cfg, cfg.towers[0])
+        cache = GreensFunctionCache(d)
+        for what in ("miss that stores the entry", "hit that reads it back", "hit through a re-opened cache"):
+            if what.startswith("hit through"):
+                cache = GreensFunctionCache(d)
+            try:
+                got = run_bldfm_single(cfg, cfg.towers[0], cache=cache)
+            except Exception as e:
+                out.bad(f"run_bldfm_single with a cache attached ({what}) raised {type(e).__name__}: {e}")
+                break
+            for name in ("conc", "flx"):
+                a, b = np.asarray(got[name]), np.asarray(ref[name])
+                if a.shape != b.shape or a.dtype != b.dtype or not np.array_equal(a, b):
+                    out.bad(f"run_bldfm_single with a cache attached ({what}): {name} is not what the same call returns without "
+                            f"a cache (shapes {a.shape}/{b.shape}, max diff "
+                            f"{np.abs(a - b).max() if a.shape == b.shape else float('nan'):.3e} of {np.abs(b).max():.3e}; "
+                            f"wind {case['ws']} m/s from {case['wd']})")
+            for k, (a, b) in enumerate(zip(got["grid"], ref["grid"])):
+                if not np.array_equal(np.asarray(a), np.asarray(b)):
+                    out.bad(f"run_bldfm_single with a cache attached ({what}): grid array {k} differs from the uncached call")
+        if not any(n.endswith(".npz") for n in os.listdir(d)):
+            out.bad("run_bldfm_single with a cache attached stored nothing")
+        out.nontrivial = True
+    finally:
+        shutil.rmtree(d, ignore_errors=True)
+    return out
 
 
 def _check_interleave(case):
@@ -648,6 +766,10 @@ def check_case(case):
         return _check_xproc(case)
     if case["kind"] == "interleave":
         return _check_interleave(case)
+    if case["kind"] == "killed-store":
+        return _check_killed_store(case)
+    if case["kind"] == "interface":
+        return _check_interface(case)
     h = History()
     try:
         fails = []
